@@ -300,6 +300,28 @@ def firing_mutants(src: dict[str, str]) -> list[dict]:
         return n.func.value
     m += _each("renderer.py", src, lambda n: isinstance(n, ast.Call) and isinstance(n.func, ast.Attribute) and n.func.attr == "copy" and "attrs" in U(n.func.value),
                uncopy, "C15", "token.attrs.copy() -> token.attrs", 1)
+    # C01 (PARTIAL): the `if not match: return False` after a regex search dropped; a membership guard weakened to True;
+    # a key of the scoped-abbreviation regex that the table does not have
+    for rel in ("rules_inline/entity.py", "rules_inline/html_inline.py"):
+        m += _each(rel, src, lambda n: isinstance(n, ast.If) and isinstance(n.test, ast.UnaryOp) and isinstance(n.test.op, ast.Not)
+                   and isinstance(n.test.operand, ast.Name) and n.test.operand.id == "match", lambda n: ast.Pass(), "C01",
+                   "`if not match: return` dropped", 1)
+    for rel in ("common/utils.py", "parser_inline.py"):
+        def weaken(n):
+            n = copy.deepcopy(n)
+            n.test = ast.Constant(value=True)
+            return n
+        m += _each(rel, src, lambda n: isinstance(n, ast.If) and isinstance(n.test, ast.Compare) and len(n.test.ops) == 1
+                   and isinstance(n.test.ops[0], ast.In) and isinstance(n.test.comparators[0], ast.Name)
+                   and n.test.comparators[0].id in ("entities", "cache"), weaken, "C01", "membership guard of a dict read -> True", 1)
+
+    def more_abbr(n):
+        n = copy.deepcopy(n)
+        n.args[0] = ast.Constant(value=n.args[0].value.replace("(c|tm|r)", "(c|tm|r|p)"))
+        return n
+    m += _each("rules_core/replacements.py", src, lambda n: isinstance(n, ast.Call) and U(n.func) == "re.compile" and n.args
+               and isinstance(n.args[0], ast.Constant) and "(c|tm|r)" in str(n.args[0].value), more_abbr, "C01",
+               "scoped-abbreviation regex accepts (p), the table has no such key", 1)
     return m
 
 
